@@ -251,6 +251,11 @@ DIRECTED = [
                   [{'k': 'fetch', 'pk': [1], 'how': 'item'}, {'k': 'delete', 'o': 0}, {'k': 'create', 'cls': 0, 'kw': {'id': 4, 'a0': 5, 'a1': 1, 'a2': 2}},
                    {'k': 'create', 'cls': 0, 'kw': {'id': 1}}, {'k': 'flush'}, {'k': 'create', 'cls': 0, 'kw': {'id': 1, 'a1': 1, 'a2': 2}},
                    {'k': 'create', 'cls': 0, 'kw': {'id': 1}}, {'k': 'commit'}]]},
+    # the first statement of a commit is refused; the program deletes the culprit and commits again: the write that was
+    # pending at the failed commit must be gone (the failed commit rolled the session back)
+    {'spec': {'nattrs': 1, 'unique': [True], 'ckeys': [], 'pk': 'explicit', 'parents': [None], 'with_h': False},
+     'sessions': [[{'k': 'ext', 'pk': [9], 'vals': [3]}, {'k': 'create', 'cls': 0, 'kw': {'id': 2, 'a0': 3}}, {'k': 'create', 'cls': 0, 'kw': {'id': 1, 'a0': 1}},
+                   {'k': 'commit'}, {'k': 'delete', 'o': 0}, {'k': 'commit'}]]},
     # a flush that stops half-way, caught by the program, then commit
     {'spec': {'nattrs': 1, 'unique': [True], 'ckeys': [], 'pk': 'explicit', 'parents': [None], 'with_h': False},
      'sessions': [[{'k': 'ext', 'pk': [9], 'vals': [3]}, {'k': 'create', 'cls': 0, 'kw': {'id': 1, 'a0': 1}}, {'k': 'create', 'cls': 0, 'kw': {'id': 2, 'a0': 3}},
@@ -277,13 +282,22 @@ def run_history(spec, sessions=None, rng=None, nsess=0, nops=0, ctx=None, workdi
                 pending = None
             count_s += 1
             w.objs = []; w.dumps = []
-            with db_session:
+            exit_err = None
+            doomed = set(); keep_alive = []
+            try:
+              with db_session:
                 w.con = None
                 k = 0
+                closing = False
                 while True:
                     if pending is not None:
-                        if not pending: break
-                        op = pending.pop(0)
+                        if not pending:
+                            # a replayed session that does not end with commit / rollback: what the end of the db_session would do
+                            cache = core.local.db2cache.get(w.db)
+                            if closing or cache is None or not cache.is_alive or not (cache.modified or cache.in_transaction): break
+                            closing = True
+                            op = {'k': 'commit'}
+                        else: op = pending.pop(0)
                     else:
                         if k >= nops: op = {'k': rng.choice(['commit', 'commit', 'rollback'])}
                         else: op = gen_op(rng, w, None)
@@ -300,7 +314,15 @@ def run_history(spec, sessions=None, rng=None, nsess=0, nops=0, ctx=None, workdi
                     for what, v in w.duplicates(com): findings.append(('duplicate-key-committed', {'key': what, 'value': v}, len(trace) - 1))
                     if op['k'] == 'ext':
                         if res['err'] is None: baseline = com
+                    elif op['k'] == 'commit' and res['err'] is not None:
+                        doomed.update(id(o) for o in res['written'])
+                        keep_alive.extend(res['written'])
+                        if com != baseline:
+                            findings.append(('committed-table-changed-without-commit', {'call': op['k'], 'outcome': res['err'], 'before': baseline, 'after': com}, len(trace) - 1))
                     elif op['k'] == 'commit' and res['err'] is None:
+                        for o in res['written']:
+                            if id(o) in doomed:
+                                findings.append(('write-pending-at-a-failed-commit-was-committed-later', {'pk': w.pkl(o)}, len(trace) - 1))
                         for o in res['written']:
                             pk = w.pkl(o)
                             rows = [r for r in com if r[0] == pk]
@@ -316,10 +338,19 @@ def run_history(spec, sessions=None, rng=None, nsess=0, nops=0, ctx=None, workdi
                         baseline = com
                     elif com != baseline:
                         findings.append(('committed-table-changed-without-commit', {'call': op['k'], 'outcome': res['err'] or 'ok', 'before': baseline, 'after': com}, len(trace) - 1))
-                    if res.get('reset'): w.objs = []; w.dumps = []
+                    if res.get('reset'):
+                        cache = core.local.db2cache.get(w.db)
+                        if cache is None or not cache.is_alive: w.objs = []; w.dumps = []      # the session's objects are gone
                     if findings: break
-                    if op['k'] in ('commit', 'rollback') and pending is None: break
+                    if op['k'] in ('commit', 'rollback') and pending is None:
+                        # after a commit that raised the program may go on in the same db_session (new cache)
+                        if op['k'] == 'commit' and res['err'] is not None and k < nops + 6 and rng.random() < 0.6:
+                            nops = k + 3; continue
+                        break
                 if findings: rollback()
+            except Exception as e:
+                exit_err = type(e).__name__
+                if ctx: ctx.count('db_session-exit-raised:' + exit_err)
             # the end of the db_session released the cache: the model forgets the session's objects
             trace.append(({'k': 'end'}, {'err': None, 'mop': {'k': 'rollback'}}, w.snapshot14()))
             com = trace[-1][2]['committed']
